@@ -693,6 +693,17 @@ def r_negslice(ctx, fqs):
                 if (-d) % c != 0:
                     continue
                 p0 = (-d) // c
+                # a path condition that excludes E = 0 (if E != 0 / if E: / if p > p0) makes the slice safe
+                excluded = False
+                for a_, pol_ in ctx.conds(f, nd):
+                    if not any(x == syms[0] for x in walk_term(a_)):
+                        continue
+                    from ..finite import feval as _fe, UNKNOWN as _U
+                    v_ = _fe(a_, lambda x: p0 if x == syms[0] else _U)
+                    if v_ is not _U and bool(v_) != pol_:
+                        excluded = True
+                if excluded:
+                    continue
                 if p0 >= _PARAM_MIN[p] and (nd.id, which, b) not in seen:
                     seen.add((nd.id, which, b))
                     n += 1
